@@ -371,12 +371,13 @@ func (c *Ctx) ruleRetryableFailures(rr *RuleRep, sites []*reqSite) []handleUse {
 			if ex, ok := rv.(*ssa.Extract); ok {
 				call, callee = c.asCall(ex.Tuple)
 			}
+			wi, isWrap := c.wrapInfoOf(callee)
 			switch {
-			case callee == wrapRetry && len(call.Call.Args) >= 2:
-				h, mc := c.closureOf(call.Call.Args[1])
+			case call != nil && isWrap && wi.handle >= 0 && len(call.Call.Args) > wi.handle:
+				h, mc := c.closureOf(call.Call.Args[wi.handle])
 				if h == nil {
 					if rr != nil {
-						rr.Undecided(key, ret.Pos(), "retry handle operand %s does not resolve to a closure", call.Call.Args[1].Name())
+						rr.Undecided(key, ret.Pos(), "retry handle operand %s does not resolve to a closure", call.Call.Args[wi.handle].Name())
 					}
 					continue
 				}
@@ -690,7 +691,15 @@ func (c *Ctx) ruleQoS0NoRetry(rr *RuleRep, sites []*reqSite) {
 		if s.Kind != "publish" || s.QoS != 0 {
 			continue
 		}
-		w, ok := CanReach(s.F, nil, func(in ssa.Instruction) bool { return c.isCallTo(in, wrapRetry) }, s.Q)
+		w, ok := CanReach(s.F, nil, func(in ssa.Instruction) bool {
+			k, isCall := in.(*ssa.Call)
+			if !isCall {
+				return false
+			}
+			wi, isWrap := c.wrapInfoOf(c.StaticCalleeOf(&k.Call))
+			return isWrap && wi.handle >= 0
+		}, s.Q)
+		_ = wrapRetry
 		if ok {
 			rr.Bad(s.Name, w.Pos(), "a retry handle is produced for a QoS 0 publish: QoS 0 messages must never be retransmitted")
 		} else {
